@@ -57,14 +57,15 @@ Lemma goose_dbmate_line_filter_refuted :
   /\ forallb (fun c => scan_closed opts_generic semi (c_cmd c)) (p_changes w_goose_plan ++ p_changes w_dbmate_plan) = true.
 Proof. vm_compute. repeat split; reflexivity. Qed.
 
-(** 5. Liquibase: a multi-line reverse statement is written after ''--rollback: ''; its second line
-    is read as a statement of the UP migration. *)
+(** 5. Liquibase (the multi-line rollback leak was repaired in the tree under test, ae3e356:
+    every line of a reverse statement now carries the "--rollback: " prefix; witness of the repaired
+    behaviour) *)
 Definition w_liquibase_plan : plan :=
   mkPlan [] [] [] []
     [mkChange (bs "CREATE TABLE t (c integer)") (bs "create t") [bs ("DROP TABLE" ++ nl ++ "t")]].
-Lemma liquibase_rollback_refuted :
+Lemma liquibase_rollback_repaired :
   roundtrip FLiquibase opts_postgres (bs "20240101000000") w_liquibase_plan
-    = Some [bs "CREATE TABLE t (c integer);"; bs "t;"].
+    = Some [bs "CREATE TABLE t (c integer);"].
 Proof. vm_compute. reflexivity. Qed.
 (** and the empty plan is read as one statement (the header line has no newline after it) *)
 Lemma liquibase_empty_refuted :
